@@ -21,7 +21,9 @@ ASSUMPTIONS = [
 SHARD_LIMIT = {"quick": 900, "thorough": 7200}
 
 TEXTS = ["new", "<&>\"q'", "\xe9√", "a\nb", "x]]>y", "On"]
-NUMS = ["7", "7.25", "-2.5", "1:30", "1;30", "1 30", "-0:30:00", "12:30:36", 3.5, ".5"]
+NUMS = ["7", "7.25", "-2.5", "1:30", "1;30", "1 30", "-0:30:00", "12:30:36", 3.5, ".5", "1:02:03.05", "-20:00:00.07"]
+# number properties in every format family (the client's view shows what the DEVICE renders with its format)
+MORE_NUMBER_VARIANTS = ("number-sexa3", "number-sexa5", "number-sexa8", "number-sexa9", "number-g", "number-d")
 BLOB_SIZES = [0, 1, 3, 255, 256, 1023, 1024, 1025]
 
 
@@ -51,6 +53,8 @@ def shards(tier, seed):
         for ndev in (2, 3):
             for depth in (1, 2) if tier == "thorough" else (1,):
                 sh.append((tier, seed, variant, ndev, depth))
+    for variant in MORE_NUMBER_VARIANTS:
+        sh.append((tier, seed, variant, 2, 1))
     return sh
 
 
